@@ -133,6 +133,68 @@ def r031_wiring(ctx, rule, only_weights=False):
     ctx.floor(rule, "named fairness metrics with one MetricFrame", n, 6)
 
 
+def _chain_roles(A2, rc, Pc):
+    """{role: dict term} when other_params is partitioned by filtering dict comprehensions, else {}"""
+    O = Pc["other_params"]
+    comps = {}
+    for e in rc.events:
+        if e.kind != "store" or e.data.get("tkind") != "name" or e.loops:
+            continue
+        v = e.data["value"]
+        while v.op == "assume":
+            v = v.args[1]
+        if v.op == "comp" and v.args[0] == "dict" and len(v.args[2]) == 1 and v.args[1].op == "kv":
+            src, conds = v.args[2][0]
+            if src.op == "call" and src.args[0].op == "attr" and src.args[0].args[1] == "items" and not src.args[1] and not src.args[2]:
+                el = mk("elem", src)
+                if v.args[1].args[0] is mk("sub", el, const(0)) and v.args[1].args[1] is mk("sub", el, const(1)):
+                    comps[v] = (src.args[0].args[0], conds, mk("sub", el, const(0)))
+    if len(comps) < 3:
+        return {}
+    S = A2.entry(rc, "self._sample_param_names")
+    Tn = A2.entry(rc, "parameters_for_transforms")
+
+    class _Unknown(Exception):
+        pass
+
+    def peel(t):
+        while t.op == "assume":
+            t = t.args[1]
+        return t
+
+    def member(D, a, b, depth=0):
+        D = peel(D)
+        if D is O:
+            return True
+        if D not in comps or depth > 6:
+            raise _Unknown()
+        X, conds, k = comps[D]
+        return member(X, a, b, depth + 1) and all(ev(c, k, a, b, depth) for c in conds)
+
+    def ev(c, k, a, b, depth):
+        if c.op == "not":
+            return not ev(c.args[0], k, a, b, depth)
+        if c.op in ("and", "or"):
+            vals = [ev(x, k, a, b, depth) for x in c.args[0]]
+            return all(vals) if c.op == "and" else any(vals)
+        if c.op == "cmp" and c.args[0] in ("in", "not in") and c.args[1] is k:
+            tgt = peel(c.args[2])
+            val = a if tgt is S else (b if tgt is Tn else member(tgt, a, b, depth + 1))
+            return val if c.args[0] == "in" else not val
+        raise _Unknown()
+    want = {"sample": frozenset({(True, False), (True, True)}), "transform": frozenset({(False, True)}), "bound": frozenset({(False, False)})}
+    out = {}
+    for D in comps:
+        try:
+            table = frozenset((a, b) for a in (True, False) for b in (True, False) if member(D, a, b))
+        except _Unknown:
+            continue
+        for role_, t_ in want.items():
+            if table == t_ and role_ not in out:
+                out[role_] = D
+    return out if set(out) == set(want) else {}
+
+
 def r033_generated(ctx):
     ctx.rule("R03.3", "for every (base, variant) in METRICS_SPEC the registered name is '<base.__name__>_<variant>' and the "
                       "object is make_derived_metric(metric=base, transform=variant, sample_param_names=['sample_weight']); "
@@ -183,7 +245,12 @@ def r033_generated(ctx):
     Pc = rc.params
     st = [e for e in rc.events if e.kind == "store" and e.data.get("tkind") == "sub" and e.loops and e.func == fqc
           and isinstance(e.data.get("base_node"), ast.Name)]
-    lev = [x for x in rc.events if x.kind == "loop" and x.func == fqc][0]
+    levs = [x for x in rc.events if x.kind == "loop" and x.func == fqc]
+    if not levs:
+        # no sorting loop at all (the partition written with comprehensions): a placeholder that matches nothing
+        from types import SimpleNamespace
+        levs = [SimpleNamespace(data={"elem": mk("undef", "no-loop"), "iter": mk("undef", "no-loop"), "lid": None}, node=None)]
+    lev = levs[0]
     k, v = mk("sub", lev.data["elem"], const(0)), mk("sub", lev.data["elem"], const(1))
     by_name = {e.data["base_node"].id: e for e in st}
     okp = len(st) == 3 and all(e.data["key"] is k and e.data["value"] is v for e in st) and \
@@ -215,26 +282,36 @@ def r033_generated(ctx):
         # ... for every keyword: nothing leaves the loop early (a break after the first sample parameter drops the rest)
         early = [x for x in rc.events if x.kind in ("break", "return", "return-inlined", "raise") and x.loops and lev.data["lid"] in x.loops]
         okp = okp and not early
+    role_terms = {}
+    if not okp:
+        # the same partition written as a chain of filtering dict comprehensions (each one over other_params.items() or over the
+        # items of an earlier one; a filter may test membership in an earlier result): decided by the truth table of "key in D"
+        # over the two atoms (key in sample_param_names, key in parameters_for_transforms)
+        role_terms = _chain_roles(A2, rc, Pc)
+        okp = set(role_terms) == {"sample", "transform", "bound"}
+
+    def role(ev_, which):
+        return role_terms[which] if role_terms else A2.at(ev_, roles[which])
     ctx.ob("R03.3", fqc, lev.node, okp, "**other_params is split exhaustively and disjointly: names in sample_param_names -> "
            "sample params, 'method' -> transform params, everything else -> bound into the metric", construct="parameter partition")
     mfc = [e for e in rc.events if e.kind == "call" and e.data.get("constructs") == MF]
-    okf = len(mfc) == 1 and okp
-    if okf:
-        c = mfc[0]
+    # one construction, or one per transform family when the construction sits in a helper with several callers: each is checked
+    okf = 1 <= len(mfc) <= 2 and okp
+    for c in (mfc if okf else []):
         sp, disp = kw(c, "sample_params"), kw(c, "metrics")
-        okf = sp is A2.at(c, roles["sample"]) and kw(c, "y_true") is Pc["y_true"] and kw(c, "y_pred") is Pc["y_pred"] \
+        okf = okf and sp is role(c, "sample") and kw(c, "y_true") is Pc["y_true"] and kw(c, "y_pred") is Pc["y_pred"] \
             and kw(c, "sensitive_features") is Pc["sensitive_features"]
         part = root_of(disp)
         okf = okf and part.op == "call" and part.args[0] is glob("functools.partial") and A2.eq(part.args[1][0], A2.entry(rc, "self._metric_fn")) \
-            and any(kk == "**" and vv is A2.at(c, roles["bound"]) for kk, vv in part.args[2])
+            and any(kk == "**" and vv is role(c, "bound") for kk, vv in part.args[2])
     ctx.ob("R03.3", fqc, mfc[0].node if mfc else None, okf, "the MetricFrame is built from partial(metric, **bound params), the "
            "caller's data and the sample params only", construct="frame construction")
     # transform dispatch
     tr = mk("attr", rc.self_term, "_transform")
     bad = []
     if mfc and okp:
-        frame = mfc[0].data["result"]
-        tp = A2.at(mfc[0], roles["transform"])
+        frames = [m_.data["result"] for m_ in mfc]
+        tp = role(mfc[0], "transform")
         for tv in ("difference", "ratio", "group_min", "group_max", "bogus"):
             env = {tr: tv}
             try:
@@ -247,7 +324,7 @@ def r033_generated(ctx):
                 if not raised:
                     bad.append("an unknown transform is accepted")
                 continue
-            if raised or got is None or got.op != "call" or got.args[0].op != "boundmethod" or got.args[0].args[0] is not frame:
+            if raised or got is None or got.op != "call" or got.args[0].op != "boundmethod" or not any(got.args[0].args[0] is f_ for f_ in frames):
                 bad.append(f"transform={tv}: {show(got, maxdepth=3)[:100] if got is not None else 'raises'}")
                 continue
             meth = got.args[0].args[1].rsplit(".", 1)[1]
